@@ -145,7 +145,7 @@ def refmap_check(sc, obs, bounds=True):
                 return (i, "compaction needed %d calls" % ob[1])
         elif name == "scanall":
             pat = op[3]
-            exp = sorted(k.hex() for (k, _, _, _) in m.values() if pat == 0 or (len(k) > 0 and k[0] == pat - 1))
+            exp = sorted(k.hex() for (k, _, _, _) in m.values() if pat == 0 or (pat <= 256 and len(k) > 0 and k[0] == pat - 1) or (pat > 256 and (pat - 257) in k))
             if ob[1] is None:
                 return (i, "scan did not terminate within 400 pages")
             if ob[1] != exp:
@@ -359,7 +359,7 @@ def gen_random(rng, sid, size=None, nops=None, eqsize=None, xfer=True, weights=N
         elif n in ("stats", "len", "range", "compact", "compactall"):
             ops.append([n, wh])
         elif n == "scanall":
-            ops.append([n, wh, rng.choice([1, 1, 2, 3, 10, 1000]), rng.choice([0, 0, 98, 99, 123])])
+            ops.append([n, wh, rng.choice([1, 1, 2, 3, 10, 1000]), rng.choice([0, 0, 98, 99, 123, 257 + 98, 257 + 49, 257 + 48])])
         elif n == "xfer":
             ops.append(["xfer"])
     # always end with full observations
